@@ -44,6 +44,22 @@ Clauses checked on the implementation's answer to `inverse <elem-type> <A>` (and
     right 1.00, left 0.85 — the constant 2^8 leaves a factor > 250; a transposed permutation, a swapped
     substitution order, L/U confused or a transposed result give residuals of order 1 (ratio ~1e13).
     The ratios of each run are printed in the notes.
+ 4b. MIXED EXTREMES (fourth seeded round; `sharp_right`): the right product against the scale that the rounding analysis of the
+    algorithm itself gives, at EVERY magnitude - also with subnormal and near-overflow entries in one matrix, where clause 4
+    does not apply (its floor max|A| max_k|B_kj| is astronomically large there and its relative model knows no underflow):
+        |A B - I|_ij <= 2^8 n u (P^T|L||U| |B|)_ij + 2^6 2^-1075 ( n^2 + sum_k |u_kk| + sum_t (n + |u_tt|) |B_tj| )
+    with L, U, P the factors of partial pivoting (first maximum of the column) computed here in exact rationals (`exact_plu`;
+    orders <= 12).  The second term is the absolute allowance for gradual underflow (a multiplier or a product below 2^-1022 is
+    rounded to a multiple of 2^-1074; derivation at `sharp_right`); it is below 2^-44 whenever the entries of A stay below
+    2^1018.  The exact factors stand for the computed ones only when the pivot order is certain and every pivot significant
+    (`exact_plu`: candidates compared beyond the uncertainty of the computed entries); otherwise the scale is the rigorous
+    column-growth bound (|L||U|)_it <= n max_s|a_st| outside the safe range, and the clause is not applied inside it.  An entry
+    whose scale reaches 2^1024 is not judged (the statement's formula leaves the number range), a non-finite entry of B is a
+    failure when `_must_be_finite` certifies that nothing in the algorithm can overflow.  The left product keeps the norm-wise
+    form of clause 4 there (it follows from the right one up to the condition number).  Largest ratio measured on the
+    unmodified code: 0.71 on the mixed families, 0.47 inside the safe range (bound 256).
+    Clause 3 (d) (`solid_pivots`): when the pivot order is certain and every exact pivot, its uncertainty taken off, is >= 2^10
+    EPSILON (and |L||U| < 2^1000), a refusal is a failure at every magnitude.
  5. reference: for kappa_inf(A) <= 1e3 (computed exactly from the exact rational inverse)
         |B - A^-1|_ij <= 2^8 n u kappa_inf max_k |A^-1_kj|          (measured: 0.85)
  6. `inv2`: the second call is an `inverse` call like any other (clauses 1, 4 on (B, A'')).  If kappa_inf(A) <= 1e3
@@ -78,7 +94,11 @@ RULE = ("generated by `svharness C10 gen`: every 2x2 over -2..2 (x every element
         "permutations, permutations plus integer or real noise, small integers with a zero diagonal, dense dyadic with off-diagonal "
         "column maxima, n = 2..8, times EVERY power of two 2^-60..2^60 (18 per exponent at 2^+-50..2^+-54, 5 elsewhere), two thirds as "
         "inv2, f32 where representable; every cyclic shift of 2..5 rows at 2^+-51, 2^+-52, 2^+-53; one ulp on either side of EPSILON "
-        "and 1/EPSILON; non-trivial = the model returns a matrix of order >= 1 (for a sweep: "
+        "and 1/EPSILON; mixed extremes inside one matrix (fourth seeded round): [[P, H], [E, D]] with an ordinary block P, huge entries H "
+        "(up to 2^1018) in its rows, tiny entries E (subnormal 2^-1023..2^-1052, the bottom of the normal range, anywhere down to 2^-960 "
+        "with H to match) below it and D of the magnitude of E P^-1 H, n = 2..6, 1..n-1 tiny rows, rows in order / shuffled, exact zeros "
+        "among the tiny entries, a sixth (rows in order) as inv2; the 2x2 / 3x3 instances for every tiny exponent -1022..-1074, decimal spellings around "
+        "2.2e-308 (judged by clause 4b); non-trivial = the model returns a matrix of order >= 1 (for a sweep: "
         "for at least one of its 125 matrices); distinct = distinct request lines")
 
 U53 = Fraction(1, 2 ** 53)
@@ -91,10 +111,27 @@ KAPPA_MAX = 1000
 SAFE_LO = 2.0 ** -340
 N_EXACT = 12            # largest order for which the exact rational inverse / exact pivoting order is computed
 SAFE_HI = 2.0 ** 340
+# MIXED EXTREMES (fourth seeded round): outside the safe range the products are judged too - clause 4b below, with the
+# exact |L||U| of partial pivoting as scale and an absolute allowance for gradual underflow
+MAXF = Fraction(2) ** 1024          # the statement's formula "leaves the range" when a scale reaches this
+ETA = Fraction(1, 2 ** 1075)        # absolute rounding error of a product / quotient that underflows (half a subnormal step)
+C_ABS = 2 ** 6                      # slack on the underflow allowance (theory: 1)
+BIG_OK = Fraction(2) ** 1000        # "far from overflow"
+PLU_CU = 2 ** 10                    # uncertainty of a computed entry of the elimination: PLU_CU n u (|L||U|)_ik
+PLU_TIE = Fraction(1, 2 ** 20)      # pivot candidates this close (relative) are not told apart
+PLU_SIGNIF = 2 ** 10                # a pivot below PLU_SIGNIF times its own uncertainty is not trusted
 
 
 def _f(tok):
     return struct.unpack("<d", struct.pack("<Q", int(tok)))[0]
+
+
+def _fl(q):
+    """float(q) for a rational that may lie outside the binary64 range (only for messages)"""
+    try:
+        return float(q)
+    except OverflowError:
+        return float("inf") if q > 0 else float("-inf")
 
 
 def _bits(x):
@@ -281,6 +318,22 @@ def well_conditioned(A, kappa_max=None):
     return None
 
 
+def solid_pivots(A):
+    """clause 3 (d), at every magnitude (tiny and huge entries in one matrix included): order <= 12, the pivot order of the
+    computed elimination is certain (`exact_plu`) and every pivot it can meet is >= 2^10 EPSILON after its uncertainty is
+    taken off, every entry of |L||U| stays below 2^1000: the refusal rule |pivot| < EPSILON cannot fire."""
+    n = len(A)
+    if n == 0 or n > N_EXACT:
+        return None
+    f = exact_plu([[Fraction(x) for x in r] for r in A])
+    if f is None or not f["certain"] or f["margin"] < 2 ** 10 * Fraction(EPS):
+        return None
+    if any(w >= BIG_OK for r in f["W"] for w in r):
+        return None
+    return ("the pivot order of partial pivoting is certain in exact arithmetic and every pivot is >= %.3g >= 2^10 EPSILON"
+            % _fl(f["margin"]))
+
+
 def _small_scale_well_conditioned(A):
     """A well-conditioned matrix (order <= 8, exact kappa_inf <= KAPPA_MAX, entries in the safe range) whose scale is
     below the ABSOLUTE refusal threshold: no certificate of `well_conditioned` applies because a pivot can be < EPSILON
@@ -371,24 +424,213 @@ def product_ratios(A, B):
     return worst_r, worst_l
 
 
+def _in_safe(M):
+    return all(x == 0 or SAFE_LO <= abs(x) <= SAFE_HI for r in M for x in r)
+
+
+def exact_plu(AF):
+    """Elimination with partial pivoting (first maximum of the column, as the code does it) in exact rationals on the
+    matrix of Fractions AF.  Returns None when a pivot column vanishes (exactly singular), else the dict
+      W        P^T |L||U| with the rows in the order of A (row i of W belongs to row i of A), exact
+      piv      the exact pivots u_kk in the order they are met
+      certain  True when the computed elimination provably takes the same rows as pivots and every pivot is significantly
+               non-zero: at each step the chosen candidate beats every other one beyond the uncertainty of the computed
+               entries (PLU_CU n u + eta)(|L||U|)_ik + Q_k (eta: accumulated relative uncertainty of the pivots used so
+               far; Q_k: the absolute effect of gradual underflow, ETA (1 + |u_tk|) per elimination step t < k - a
+               multiplier and a product each rounded to a multiple of 2^-1074) and by 2^-20 relative, and is at least
+               PLU_SIGNIF times its own uncertainty.  Only then are the exact factors a faithful picture of the computed ones.
+      margin   min_k (|u_kk| - uncertainty of u_kk): a lower bound for every computed pivot (meaningful when certain)."""
+    n = len(AF)
+    M = [r[:] for r in AF]
+    zero = Fraction(0)
+    W = [[zero] * n for _ in range(n)]
+    orig = list(range(n))
+    cu = PLU_CU * n * U53
+    eta = zero
+    Q = [zero] * n
+    certain = True
+    piv = []
+    margin = None
+    for k in range(n):
+        p = k
+        for r in range(k + 1, n):
+            if abs(M[r][k]) > abs(M[p][k]):
+                p = r
+        m = abs(M[p][k])
+        if m == 0:
+            return None
+        unc = lambda i: (cu + eta) * (W[i][k] + abs(M[i][k])) + Q[k]
+        dp = unc(p)
+        lo = m * (1 - PLU_TIE) - dp
+        for i in range(k, n):
+            if i != p and abs(M[i][k]) * (1 + PLU_TIE) + unc(i) >= lo:
+                certain = False
+        if m < PLU_SIGNIF * dp:
+            certain = False
+        if margin is None or m - dp < margin:
+            margin = m - dp
+        if p != k:
+            M[k], M[p] = M[p], M[k]
+            W[k], W[p] = W[p], W[k]
+            orig[k], orig[p] = orig[p], orig[k]
+        Mk = M[k]
+        d = Mk[k]
+        piv.append(d)
+        absk = [abs(v) for v in Mk]
+        Wk = W[k]
+        for j in range(k, n):
+            Wk[j] += absk[j]                  # l_kk = 1 times row k of U
+            if j > k:
+                Q[j] += ETA * (1 + absk[j])
+        for i in range(k + 1, n):
+            a = M[i][k]
+            if a == 0:
+                continue
+            l = a / d
+            al = abs(l)
+            Mi = M[i]; Wi = W[i]
+            Wi[k] += abs(a)                   # |l_ik| |u_kk|
+            Mi[k] = zero
+            for j in range(k + 1, n):
+                u = Mk[j]
+                if u != 0:
+                    Mi[j] -= l * u
+                    Wi[j] += al * absk[j]
+        eta += dp / m
+    Wo = [None] * n
+    for i in range(n):
+        Wo[orig[i]] = W[i]
+    return {"W": Wo, "piv": piv, "certain": certain, "margin": margin, "orig": orig}
+
+
+def sharp_right(A, B, want=None):
+    """clause 4b: the right product against the scale the rounding analysis of the algorithm actually gives (Higham, Thm
+    9.4: (A + E_j) b_j = e_j with |E_j| <= 3 gamma_n P^T|L||U|), at EVERY magnitude - tiny and huge entries in one matrix:
+        |A B - I|_ij  <=  2^8 n u (P^T|L||U| |B|)_ij  +  2^6 ETA ( n^2 + sum_k |u_kk| + sum_t (n + |u_tt|) |B_tj| )
+    L, U, P: the factors of partial pivoting computed HERE in exact rationals (`exact_plu`); ETA = 2^-1075: a multiplier
+    or a product that underflows is rounded to a multiple of 2^-1074, an absolute error that the relative model does not
+    know (the reconstruction L U = P A is then off by ETA |u_jj| below the diagonal and by ETA per step elsewhere; the two
+    substitutions add ETA per product and ETA |u_kk| per division).  When the pivot order of the computed elimination is not
+    certain (`exact_plu`), the scale falls back to the column-wise growth bound (|L||U|)_it <= n max_s |a_st|.  An entry
+    whose scale reaches 2^1024 is not judged (the statement's own formula leaves the range there), and nothing is judged when
+    an entry of |L||U| itself reaches 2^1023 (the elimination may have overflowed).
+    -> None (exactly singular / overflow possible: not judged) | (ratio, i, j, mode) with ratio = (|A B - I|_ij - allowance) / (n u scale_ij)"""
+    n = len(A)
+    AF = [[Fraction(x) for x in r] for r in A]
+    BF = [[Fraction(x) for x in r] for r in B]
+    f = exact_plu(AF)
+    if f is None:
+        return None
+    absB = [[abs(x) for x in r] for r in BF]
+    # an entry of |L||U| at 2^1023 or beyond: a partial sum of the elimination may have overflowed (an infinite u_kk then gives
+    # finite but meaningless components y / inf = 0): the formula of the statement has left the number range, nothing is judged
+    if any(w >= MAXF / 2 for r in f["W"] for w in r):
+        return None
+    if f["certain"]:
+        W = f["W"]; diag = [abs(d) for d in f["piv"]]; mode = "|L||U|"
+    else:
+        if want == "certain":
+            return None
+        colmax = [max(abs(AF[s][t]) for s in range(n)) for t in range(n)]
+        if any(2 ** n * c >= MAXF / 2 for c in colmax):
+            return None
+        W = [[n * c for c in colmax]] * n
+        diag = [n * c for c in colmax]; mode = "column growth bound"
+    sdiag = sum(diag)
+    nu = n * U53
+    worst = (Fraction(0), 0, 0, mode)
+    BT = [list(c) for c in zip(*BF)]
+    aBT = [list(c) for c in zip(*absB)]
+    for j in range(n):
+        bj = BT[j]; abj = aBT[j]
+        allow = C_ABS * ETA * (n * n + sdiag + sum((n + diag[t]) * abj[t] for t in range(n)))
+        for i in range(n):
+            r = abs(sum(x * y for x, y in zip(AF[i], bj) if x and y) - (1 if i == j else 0))
+            if r <= allow:
+                continue
+            sc = sum(w * y for w, y in zip(W[i], abj) if w and y)
+            if sc >= MAXF:
+                continue
+            q = (r - allow) / (nu * sc) if sc != 0 else Fraction(10 ** 30)
+            if q > worst[0]:
+                worst = (q, i, j, mode)
+    return worst
+
+
+def _must_be_finite(A):
+    """certificate (exact) that nothing in PLU + substitutions can overflow on A, so that a non-finite entry of the returned
+    matrix is a failure even outside the safe range: order <= 12, pivot order certain, |L||U|, the exact inverse X and
+    |L||U||X| all below 2^1000, and || |X| |L||U| ||_inf 2^8 n u <= 2^-10 (every matrix A + E with |E| <= 2^8 n u |L||U| - the
+    matrices whose exact inverse columns the computed ones are - then has an inverse within a factor 2 of X)."""
+    n = len(A)
+    if n == 0 or n > N_EXACT:
+        return False
+    AF = [[Fraction(x) for x in r] for r in A]
+    f = exact_plu(AF)
+    if f is None or not f["certain"]:
+        return False
+    X = exact_inverse(A)
+    if X is None:
+        return False
+    W = f["W"]
+    aX = [[abs(x) for x in r] for r in X]
+    if any(w >= BIG_OK for r in W for w in r) or any(x >= BIG_OK for r in aX for x in r):
+        return False
+    for i in range(n):
+        for j in range(n):
+            if sum(W[i][t] * aX[t][j] for t in range(n)) >= BIG_OK:
+                return False
+    rowsum = max(sum(sum(aX[i][t] * W[t][j] for t in range(n)) for j in range(n)) for i in range(n))
+    return rowsum * C_RES * n * U53 <= Fraction(1, 2 ** 10)
+
+
 def check_returned(A, Bt, what="", stats=None):
-    """clause 4 on a returned matrix"""
+    """clauses 4 and 4b on a returned matrix"""
     n = len(A)
     h, w, B = Bt
     if h != n or w != n:
         return f"{what}the inverse of a {n}x{n} matrix is {h}x{w}"
-    if not _finite(B):
-        return f"{what}the returned matrix has a non-finite entry"
     if n == 0 or not _finite(A):
+        if not _finite(B):
+            return f"{what}the returned matrix has a non-finite entry"
         return None
-    (qr, i, j), (ql, i2, j2) = product_ratios(A, B)
-    if stats is not None:
-        stats["right"] = qr; stats["left"] = ql
-    if qr > C_RES:
-        return f"{what}|A B - I| exceeds 2^8 n u |A||B|-scaled rounding at ({i},{j}) (ratio {float(qr):.3g})"
-    if ql > C_RES:
-        return f"{what}|B A - I| exceeds 2^8 n u |B||A|-scaled rounding at ({i2},{j2}) (ratio {float(ql):.3g})"
+    safe = _in_safe(A)
+    if not _finite(B):
+        if safe or _must_be_finite(A):
+            return f"{what}the returned matrix has a non-finite entry" + (
+                "" if safe else " although nothing in the exact elimination and substitutions comes near the overflow threshold")
+        return None
+    if safe:
+        (qr, i, j), (ql, i2, j2) = product_ratios(A, B)
+        if stats is not None:
+            stats["right"] = qr; stats["left"] = ql
+        if qr > C_RES:
+            return f"{what}|A B - I| exceeds 2^8 n u |A||B|-scaled rounding at ({i},{j}) (ratio {_fl(qr):.3g})"
+        if ql > C_RES:
+            return f"{what}|B A - I| exceeds 2^8 n u |B||A|-scaled rounding at ({i2},{j2}) (ratio {_fl(ql):.3g})"
+    if n > N_EXACT:
+        return None
+    # clause 4b: inside the safe range only with the exact factors (the column bound is weaker than clause 4 there)
+    s = sharp_right(A, B, want="certain" if safe else None)
+    if s is not None:
+        q, i, j, mode = s
+        if stats is not None:
+            stats["sharp" if safe else "mixed"] = q
+        if q > C_RES:
+            return (f"{what}|A B - I| exceeds 2^8 n u (|L||U||B|)-scaled rounding (+ the underflow allowance) at ({i},{j}) "
+                    f"(scale: {mode} of exact partial pivoting; ratio {_fl(q):.3g})")
+    if not safe and s is not None:
+        # the left product: the norm-wise form of clause 4 (it follows from the right one up to the condition number); not
+        # judged when the right one is not (exactly singular, or the elimination may have overflowed)
+        (qr, i, j), (ql, i2, j2) = product_ratios(A, B)
+        if ql > C_RES:
+            return f"{what}|B A - I| exceeds 2^8 n u |B||A|-scaled rounding at ({i2},{j2}) (ratio {_fl(ql):.3g})"
     return None
+
+
+def _judgeable(A):
+    """is a returned inverse of A judged by `check_returned` at all?"""
+    return _finite(A) and (_in_safe(A) or len(A) <= N_EXACT)
 
 
 def check_reference(A, Ainv, B, stats=None):
@@ -410,7 +652,7 @@ def check_reference(A, Ainv, B, stats=None):
                     worst = q
                 if q > C_RES:
                     return (f"B[{i}][{j}] differs from the exact rational inverse by more than 2^8 n u kappa |A^-1| "
-                            f"(kappa_inf = {float(kap):.3g}, ratio {float(q):.3g})"), kap
+                            f"(kappa_inf = {float(kap):.3g}, ratio {_fl(q):.3g})"), kap
     if stats is not None:
         stats["ref"] = worst
     return None, kap
@@ -435,17 +677,23 @@ def judge(A, h, w, kind, Bt, stats=None):
         return "unrecognised answer " + kind
     if not _finite(A):
         return None
-    if any(x != 0 and not (SAFE_LO <= abs(x) <= SAFE_HI) for r in A for x in r):
-        return None
-    exp, why = expectation(A)
+    safe = _in_safe(A)
+    if not safe and h > N_EXACT:
+        return None                      # mixed extremes are judged with exact factors: order <= 12 only
+    if safe or all(abs(x) <= BIG_OK for r in A for x in r):
+        exp, why = expectation(A)
+    else:
+        exp, why = None, ""              # near the overflow threshold an exact zero column need not stay one (inf - inf)
     if exp is None and kind == "err singular":
-        cert = well_conditioned(A)
+        cert = well_conditioned(A) if safe else None
+        if cert is None:
+            cert = solid_pivots(A)
         if cert:
             exp, why = True, cert
     if kind == "err singular":
         if exp is True:
             return f"refused as singular: {why}"
-        if exp is None:
+        if exp is None and safe:
             small = _small_scale_well_conditioned(A)
             if small:
                 return "refused as singular: " + small
@@ -453,7 +701,7 @@ def judge(A, h, w, kind, Bt, stats=None):
     if exp is False:
         return f"inverted although it cannot be: {why}"
     r = check_returned(A, Bt, stats=stats)
-    if r is not None or h == 0 or h > N_EXACT:
+    if r is not None or h == 0 or h > N_EXACT or not safe:
         return r
     Ainv = exact_inverse(A)
     if Ainv is None:
@@ -530,6 +778,9 @@ def oracle(req, impl, stats=None):
         small = _small_scale_well_conditioned(B) if _finite(B) else None
         if small:
             return "inverse of the inverse refused as singular: " + small
+        solid = solid_pivots(B) if _finite(B) else None
+        if solid:
+            return "inverse of the inverse refused as singular: " + solid
         return None
     if kind2 != "ok":
         return "unrecognised answer " + kind2
@@ -547,10 +798,23 @@ def oracle(req, impl, stats=None):
                     worst = d
                 if d > tol:
                     return (f"inverse of the inverse differs from A at ({i},{j}) by more than 2^9 n u kappa max|A| "
-                            f"(kappa_inf = {float(kap):.3g}, ratio {float(d / (n * U53 * kap * amax)):.3g})")
+                            f"(kappa_inf = {float(kap):.3g}, ratio {_fl(d / (n * U53 * kap * amax)):.3g})")
         if stats is not None:
             stats["back"] = worst / (n * U53 * kap * amax)
     return None
+
+
+def probe(req, impl):
+    """measurement aid (not used by ./check): the ratios of the clauses on one answer"""
+    t = req.split()
+    if t[0] == "inv3":
+        return {}
+    cmd, ty, h, w, A = _parse_request(req)
+    kind, Bt, rest = _parse_obs(impl.split())
+    st = {}
+    if kind == "ok" and h == w and 0 < h <= N_EXACT and _finite(A) and _finite(Bt[2]):
+        check_returned(A, Bt, stats=st)
+    return st
 
 
 # ------------------------------------------------------------------ correspondence
@@ -596,7 +860,7 @@ def _cmp_matrix(A, Bi, Bm, what):
     if worst is None:
         return None
     try:
-        if A is not None and _finite(A) and all(x == 0 or SAFE_LO <= abs(x) <= SAFE_HI for r in A for x in r) \
+        if A is not None and _judgeable(A) and _finite(Bi[2]) and _finite(Bm[2]) \
                 and check_returned(A, Bi) is None and check_returned(A, Bm) is None:
             return None
     except Exception:
@@ -662,7 +926,8 @@ def compare(req, impl, model):
     if all(_close(M1[i][j], M2[i][j], scale) for i in range(h1) for j in range(w1)):
         return None
     try:
-        if _finite(Bi[2]) and _finite(Bm[2]) and check_returned(Bi[2], A2i) is None and check_returned(Bm[2], A2m) is None:
+        if _finite(Bi[2]) and _finite(Bm[2]) and _judgeable(Bi[2]) and _judgeable(Bm[2]) and _finite(A2i[2]) and _finite(A2m[2]) \
+                and check_returned(Bi[2], A2i) is None and check_returned(Bm[2], A2m) is None:
             return None
     except Exception:
         pass
@@ -711,7 +976,8 @@ def finish(rows, tier):
     types = {}
     perms = {"identity": 0, "involution": 0, "non-involution": 0, "none": 0}
     cyc = {}
-    worst = {"right": Fraction(0), "left": Fraction(0), "ref": Fraction(0), "back": Fraction(0)}
+    worst = {"right": Fraction(0), "left": Fraction(0), "ref": Fraction(0), "back": Fraction(0), "sharp": Fraction(0), "mixed": Fraction(0)}
+    nmixed = 0
     nstat = 0
     step = max(1, len(rows) // 2000)
     for idx, (req, impl, horc, model) in enumerate(rows):
@@ -751,6 +1017,8 @@ def finish(rows, tier):
                 st = {}
             if st:
                 nstat += 1
+                if "mixed" in st:
+                    nmixed += 1
                 for k in worst:
                     if k in st and st[k] > worst[k]:
                         worst[k] = st[k]
@@ -805,8 +1073,10 @@ def finish(rows, tier):
                      "zero pivot column): integer matrices of order >= 4 whose singularity rounding hides from the absolute "
                      "pivot test (entries in -2..2: known finding F-C10-eps4; larger entries: outside the statement's list)")
     notes.append(f"largest ratios over {nstat} sampled inverted matrices (bound 2^8 = 256; 2^9 for the return to A): "
-                 f"|AB-I| {float(worst['right']):.3g}, |BA-I| {float(worst['left']):.3g}, "
-                 f"|B-A^-1| (kappa<=1e3) {float(worst['ref']):.3g}, |inverse(inverse(A))-A| (kappa<=1e3) {float(worst['back']):.3g}")
+                 f"|AB-I| {_fl(worst['right']):.3g}, |BA-I| {_fl(worst['left']):.3g}, "
+                 f"|B-A^-1| (kappa<=1e3) {_fl(worst['ref']):.3g}, |inverse(inverse(A))-A| (kappa<=1e3) {_fl(worst['back']):.3g}; "
+                 f"clause 4b, |AB-I| against the exact |L||U||B| of partial pivoting: {_fl(worst['sharp']):.3g} inside the safe "
+                 f"range, {_fl(worst['mixed']):.3g} on the {nmixed} sampled matrices with entries outside 2^-340..2^340 (mixed extremes)")
     return notes
 
 
